@@ -55,7 +55,7 @@ def pack_cells(what, expect=None):
     for smax in (100000, 200000):
         for clean in ('clean', 'keep'):
             name = 'pack_%s_%d_%s' % (what, smax, clean)
-            c = cell(name, 'harness.g_pack', name, (540, 1500), bounds=B_PACK, thorough_only=(smax == 200000))
+            c = cell(name, 'harness.g_pack', name, (540, 900), bounds=B_PACK, thorough_only=(smax == 200000))
             if expect:
                 c['expect'] = expect
                 c['timeout'] = (120, 300)
@@ -71,7 +71,7 @@ def direct_cells(what, expect=None):
         for pos in (0, 1, 2, 3):
             for nh in ('noholes', 'holes'):
                 name = 'direct_%s_%d_p%d_%s' % (what, smax, pos, nh)
-                c = cell(name, 'harness.g_direct', name, (540, 1500), bounds=B_DIRECT, thorough_only=(smax == 140000))
+                c = cell(name, 'harness.g_direct', name, (540, 900), bounds=B_DIRECT, thorough_only=(smax == 140000))
                 if expect:
                     if pos or nh == 'holes':
                         continue
@@ -119,7 +119,7 @@ def crash_cells(kind, ops):
             for lo, hi in slices_for(kind, op):
                 name = '%s%s_%s_%d' % (prefix, kind, op, lo)
                 out.append(
-                    cell(name, 'harness.g_crash', name, (480 if kind == 'fault' else 300, 1500), thorough_only=thorough_only,
+                    cell(name, 'harness.g_crash', name, (480 if kind == 'fault' else 300, 600), thorough_only=thorough_only,
                          bounds=bounds + '; op=%s; index slice [%d,%d]' % (op, lo, hi),
                          samples=[dict(S_CRASH, at=lo + 2)], replay_sweep={'at': SWEEP})
                 )
